@@ -108,13 +108,58 @@ def forceCmd (f : List String) : Option String :=
     let split := decide (1 < estimateLayers d ((sortIds labels).map (widthOf labels)))
     let slack := if exact then 0 else ratAbs (maxWidthPerLayer d) / 1000000000
     let cap := !(o.algorithm == .overlap && split) || capacityB d slack obs
-    let single := (if split && o.algorithm != .none then true else decide (obs.length ≤ 1)) &&
-      (!(o.algorithm == .overlap && split && decide (3 ≤ labels.length)) || decide (2 ≤ obs.length))
+    let req := requiredWidth d.nodeSpacing (labels.map (·.width))
+    let tie := !exact && decide (ratAbs (req - maxWidthPerLayer d) ≤ ratAbs (maxWidthPerLayer d) / 1000000000)
+    let single := tie || ((if split && o.algorithm != .none then true else decide (obs.length ≤ 1)) &&
+      (!(o.algorithm == .overlap && split && decide (3 ≤ labels.length)) || decide (2 ≤ obs.length)))
     -- model-side predicates
     let mobs := modelObs labels o.stubWidth (distribute d labels)
     let mOK := structureB labels o.stubWidth mobs &&
       (!(o.algorithm == .overlap && split) || capacityB d 0 mobs)
-    some s!"force same={if exact then okStr same else "na"} struct={okStr str} cap={okStr cap} single={okStr single} getLayers={okStr gl} model={okStr mOK} layers={obs.length}"
+    some s!"force same={if exact then okStr same else "na"} struct={okStr str} cap={okStr cap} single={okStr single} getLayers={okStr gl} model={okStr mOK} layers={obs.length} tie={if tie then 1 else 0}"
+  | _ => none
+
+/-- `dist|mode|alg|layerWidth|density|ns|stubWidth|labels|layers` — `Distributor.distribute` called directly -/
+def distCmd (f : List String) : Option String :=
+  match f with
+  | [mode, alg, lw, den, ns, sw, labels, layers] => do
+    let d : DOpts := { algorithm := ← parseAlg alg, layerWidth := ← parseOptRat lw, density := ← parseRat den,
+                       nodeSpacing := ← parseRat ns, stubWidth := ← parseRat sw }
+    let labels ← parseList ";" parseLabel labels
+    let layers ← parseList ";" (parseList "," parseObs) layers
+    let exact := mode == "exact"
+    let obs := layers.map (fun l => l.map (·.1))
+    let m := distribute d labels
+    let same := obs.map (fun l => l.map refOf) == m
+    let str := structureB labels d.stubWidth obs
+    let split := decide (1 < estimateLayers d ((sortIds labels).map (widthOf labels)))
+    let slack := if exact then 0 else ratAbs (maxWidthPerLayer d) / 1000000000
+    let cap := !(d.algorithm == .overlap && split) || capacityB d slack obs
+    let req := requiredWidth d.nodeSpacing (labels.map (·.width))
+    let tie := !exact && decide (ratAbs (req - maxWidthPerLayer d) ≤ ratAbs (maxWidthPerLayer d) / 1000000000)
+    let single := tie || ((if split && d.algorithm != .none then true else decide (obs.length ≤ 1)) &&
+      (!(d.algorithm == .overlap && split && decide (3 ≤ labels.length)) || decide (2 ≤ obs.length)))
+    let mobs := modelObs labels d.stubWidth m
+    let mOK := structureB labels d.stubWidth mobs && (!(d.algorithm == .overlap && split) || capacityB d 0 mobs)
+    some s!"dist same={if exact then okStr same else "na"} struct={okStr str} cap={okStr cap} single={okStr single} model={okStr mOK} layers={obs.length} split={if split then 1 else 0} tie={if tie then 1 else 0}"
+  | _ => none
+
+/-- `label:layer:pos` triples of the labels of a computed layout -/
+def parsePlacedLabel (s : String) : Option (Rat × Rat × Nat × Rat) :=
+  match s.splitOn ":" with
+  | [i, w, l, p] => do some (← parseRat i, ← parseRat w, ← parseNat l, ← parseRat p)
+  | _ => none
+
+/-- `perm|placedA|placedB`: the two layouts place the same multiset of (ideal, width, layer, position) -/
+def permCmd (f : List String) : Option String :=
+  match f with
+  | [a, b] => do
+    let a ← parseList ";" parsePlacedLabel a
+    let b ← parseList ";" parsePlacedLabel b
+    let cnt (l : List (Rat × Rat × Nat × Rat)) (x : Rat × Rat × Nat × Rat) := (l.filter (· == x)).length
+    let same := a.length == b.length && a.all (fun x => cnt a x == cnt b x)
+    let interchangeable := a.all (fun x => a.all (fun y => x.1 != y.1 || x.2.1 == y.2.1))
+    some s!"perm same={okStr same} hyp={if interchangeable then 1 else 0}"
   | _ => none
 
 end Labella.Driver
